@@ -324,7 +324,15 @@ func repoOps() []repoOp {
 			return "ok", okres(err)
 		}}
 	}
+	setSym := func(n, target string) repoOp {
+		return repoOp{fmt.Sprintf("SetSymRef(%s->%s)", n, target), func(st storage.Storer, m *absRepo) (string, string) {
+			err := st.SetReference(plumbing.NewSymbolicReference(plumbing.ReferenceName(n), plumbing.ReferenceName(target)))
+			m.refs[n] = "->" + target
+			return "ok", okres(err)
+		}}
+	}
 	return []repoOp{
+		setSym("HEAD", "refs/heads/b"), setSym("HEAD", "refs/heads/c"),
 		setRef("refs/heads/a", "h2"), setRef("refs/heads/c", "h3"),
 		cas("refs/heads/a", "h3", "h1"), cas("refs/heads/a", "h3", "h2"), cas("refs/heads/c", "h2", "h3"),
 		rm("refs/heads/a"), rm("refs/heads/b"), rm("refs/heads/c"),
